@@ -31,7 +31,8 @@ func c10Alphabet() []fsx.Op {
 		fsx.Op{K: "REMOVETHIRD", H: "root"},
 		fsx.Op{K: "CREATE", H: "root", N: nameOfLen(200, 'z')},
 		fsx.Op{K: "RENAME", H: "root", N: "a", H2: "root", N2: nameOfLen(200, 'z')},
-		fsx.Op{K: "WRITE", H: "root/a", Off: 300 * 4096, Cnt: 1, Pat: 0x55, Stable: 2},
+		fsx.Op{K: "WRITE", H: "root/a", Off: 700 * 4096, Cnt: 1, Pat: 0x55, Stable: 2}, // (700 blocks: a later truncation or removal is finished in the background)
+		fsx.Op{K: "SHRINKCRASH"}, // the server's Crash(): background freeing stops half-way; a new instance on the same disk
 		fsx.Op{K: "READ", H: "root/a", Off: 100 * 4096, Cnt: 8192}, // hole-filling read
 		fsx.Op{K: "SETATTR", H: "root/d", Size: 64},
 	)
@@ -86,7 +87,7 @@ func c10After(w *World, path []fsx.Op, r fsx.Reply, implFail bool, mis *reffs.Mi
 
 func init() {
 	Checks["C10"] = C10
-	p := &fsx.Probe{Full: 1 << 20, Windows: []uint64{300 * 4096, 100 * 4096}}
+	p := &fsx.Probe{Full: 1 << 20, Windows: []uint64{700 * 4096, 100 * 4096}}
 	key := func(w *World) string { w.Probe = p; return w.defaultKey() }
 	RegisterSeq("c10.seq", &SeqSpec{Prop: "C10", DiskSize: 3000, Alphabet: c10Alphabet(), After: c10After, Key: key})
 	// the inode table exhausted: 32765 live objects, a directory of 1024 blocks
@@ -94,6 +95,22 @@ func init() {
 		{K: "REMOVE", H: "root/bulk", N: "f16000"}, {K: "CREATE", H: "root", N: "n1"}, {K: "CREATE", H: "root/bulk", N: "n1"}, {K: "MKDIR", H: "root/d", N: "n2"},
 		{K: "RENAME", H: "root/bulk", N: "f00000", H2: "root/bulk", N2: "f00001"}, {K: "SETATTR", H: "root/bulk/f32700", Size: 5000}, {K: "REMOVETHIRD", H: "root/bulk"},
 	}})
+	// a disk with 10 free data blocks: allocations that fail half-way, blocks given back in the transaction that took them
+	var tiny []fsx.Op
+	for _, o := range c05TinyAlphabet() {
+		if o.K != "RESTART" && o.K != "DELETEALL" {
+			tiny = append(tiny, o)
+		}
+	}
+	// from a state with a 700-block sparse file: dropped in every way, interrupted by the server's Crash() or not, then reuse
+	var big []fsx.Op
+	for _, o := range c05BigAlphabet() {
+		if o.K != "RESTART" && o.K != "DELETEALL" {
+			big = append(big, o)
+		}
+	}
+	RegisterSeq("c10.big", &SeqSpec{Prop: "C10", DiskSize: 2200, Setup: c05BigSetup, Alphabet: big, After: c10After, Key: key})
+	RegisterSeq("c10.tiny", &SeqSpec{Prop: "C10", DiskSize: 1539 + 1 + 10, Alphabet: tiny, After: c10After, Key: key, AllowImplFail: true})
 	RegisterSeq("c10.seq.ic6", &SeqSpec{Prop: "C10", DiskSize: 3000, Alphabet: c10Alphabet(), After: c10After, Key: key, ICacheSz: 6})
 }
 
@@ -103,9 +120,11 @@ func C10(r *report.Report, tier string) {
 		depth = 5
 	}
 	r.Only = map[string]bool{"C10": true}
-	r.Rule = fmt.Sprintf("breadth-first search to depth %d over the C02 namespace alphabet plus macro-operations (120 files in one directory = more live inodes than the inode cache holds, 40 entries = a directory of two blocks, remove every third entry), refused operations and hole-filling reads, with the inode cache at its real size 100 and scaled to 6, and (depth two less) from the state with the inode table exhausted (32765 live objects, a directory of 1024 blocks); in every state (quiescent, flushed): cache/allocator audit against the logical disk, then an exact dump (handle bytes, every attribute incl. times and nlink, READDIR/READDIRPLUS order and cookies, every byte) of the running server must equal the dump of a server recovered from the disk image at that point and the dump after a clean restart on the same disk", depth)
+	r.Rule = fmt.Sprintf("breadth-first search to depth %d over the C02 namespace alphabet plus macro-operations (120 files in one directory = more live inodes than the inode cache holds, 40 entries = a directory of two blocks, remove every third entry), refused operations and hole-filling reads, with the inode cache at its real size 100 and scaled to 6, and (depth two less) from the state with the inode table exhausted (32765 live objects, a directory of 1024 blocks), on a disk with 10 free data blocks (allocations that fail half-way), and (depth one less) from a state with a 700-block sparse file that is dropped in every way and whose number is reused; the alphabets include the server's own Crash() (a background free of a 700-block file stops half-way, new instance); in every state (quiescent, flushed): cache/allocator audit against the logical disk, then an exact dump (handle bytes, every attribute incl. times and nlink, READDIR/READDIRPLUS order and cookies, every byte) of the running server must equal the dump of a server recovered from the disk image at that point and the dump after a clean restart on the same disk", depth)
 	s1 := RunSeq(r, "c10.seq", depth)
 	s2 := RunSeq(r, "c10.seq.ic6", depth)
 	s3 := RunSeq(r, "c10.inodes", depth-2)
-	r.Extra["searches"] = []*SeqSummary{s1, s2, s3}
+	s4 := RunSeq(r, "c10.tiny", depth)
+	s5 := RunSeq(r, "c10.big", depth-1)
+	r.Extra["searches"] = []*SeqSummary{s1, s2, s3, s4, s5}
 }
